@@ -53,6 +53,10 @@ func (p *pool) Acquire(ctx context.Context) (v wire) {
 		go func() {
 			<-poolCtx.Done()
 			if context.Cause(poolCtx) != errAcquireComplete { // no need to broadcast if the poolCtx is cancelled explicitly.
+				// take the lock first: the waiter checks ctx.Err() under the lock, so a broadcast sent without it
+				// can fall between that check and cond.Wait() and be lost, leaving the waiter asleep with a done context.
+				p.cond.L.Lock()
+				p.cond.L.Unlock()
 				p.cond.Broadcast()
 				verifPoint("pool.acquire.broadcasted", p, ctx)
 			}
